@@ -5,6 +5,7 @@
   Core Lean only.
 -/
 import Gts.Lemmas.GbFieldBody
+import Gts.Lemmas.GbStripOnePass
 namespace Gts.GenBank
 open Gts.Pars
 
@@ -90,42 +91,7 @@ theorem quoted_ok (w t : Bytes) (stk : List Bytes) (hw : qscan false w = true) :
   simp only [Nat.zero_add] at h
   gsimp [quoted, scanQuoted, h]
 
-/-! ### `bytes.Index` -/
-
-theorem findSub_skip (pat a Y : Bytes) (n : Nat)
-    (h : ∀ i, i < a.length → pat.isPrefixOf (a.drop i ++ Y) = false) :
-    findSub pat (a ++ Y) n = findSub pat Y (n + a.length) := by
-  induction a generalizing n with
-  | nil => simp
-  | cons c a ih =>
-    have h0 := h 0 (by simp)
-    simp only [List.drop_zero] at h0
-    have h' : ∀ i, i < a.length → pat.isPrefixOf (a.drop i ++ Y) = false := by
-      intro i hi
-      have := h (i + 1) (by simp only [List.length_cons]; omega)
-      simpa using this
-    simp only [List.cons_append] at h0 ⊢
-    rw [findSub, h0]
-    simp only [Bool.false_eq_true, if_false]
-    rw [ih (n + 1) h', List.length_cons]; congr 1; omega
-
-theorem findSub_here (pat X : Bytes) (n : Nat) (hne : pat ≠ []) : findSub pat (pat ++ X) n = some n := by
-  cases pat with
-  | nil => exact absurd rfl hne
-  | cons p ps =>
-    simp only [List.cons_append, findSub]
-    have := isPrefixOf_self_append (p :: ps) X
-    simp only [List.cons_append] at this
-    simp [this]
-
-theorem findSub_none (pat a : Bytes) (n : Nat) (hne : pat ≠ [])
-    (h : ∀ i, i < a.length → pat.isPrefixOf (a.drop i) = false) : findSub pat a n = none := by
-  have := findSub_skip pat a [] n (by simpa using h)
-  simp only [List.append_nil] at this
-  rw [this]
-  cases pat with
-  | nil => exact absurd rfl hne
-  | cons p ps => simp [findSub]
+/-! ### `bytes.Index`: `findSub_skip`, `findSub_here`, `findSub_none` are in Gts/Lemmas/GbStripOnePass.lean -/
 
 /-! ### no match inside the part that is already done -/
 
@@ -207,9 +173,10 @@ theorem contLines_cons (d : Nat) (l : Bytes) (ls : List Bytes) :
     contLines d (l :: ls) = 10 :: (sp d ++ (l ++ contLines d ls)) := by
   simp [contLines, List.flatMap_cons]
 
-theorem stripCont_lines (d : Nat) (ls : List Bytes) (a : Bytes) (f : Nat)
+/-- the loop before 2612fae on continuation lines (fuel: one round per line) -/
+theorem stripContOld_lines (d : Nat) (ls : List Bytes) (a : Bytes) (f : Nat)
     (ha : NM d a) (hls : ∀ x ∈ ls, noLF x ∧ (sp d).isPrefixOf x = false) (hf : ls.length ≤ f) :
-    stripCont (sp d) f (a ++ contLines d ls) = a ++ sepText 10 ls := by
+    stripContOld (sp d) f (a ++ contLines d ls) = a ++ sepText 10 ls := by
   induction ls generalizing a f with
   | nil =>
     simp only [contLines, List.flatMap_nil, List.append_nil, sepText]
@@ -220,7 +187,7 @@ theorem stripCont_lines (d : Nat) (ls : List Bytes) (a : Bytes) (f : Nat)
         intro i hi
         have := ha [] (Or.inl rfl) i hi
         simpa using this)
-      simp [stripCont, this]
+      simp [stripContOld, this]
   | cons l ls ih =>
     cases f with
     | zero => simp at hf
@@ -235,7 +202,7 @@ theorem stripCont_lines (d : Nat) (ls : List Bytes) (a : Bytes) (f : Nat)
           (fun i hi => ha _ (Or.inr ⟨sp d ++ (l ++ contLines d ls), by simp⟩) i hi),
           findSub_here _ _ _ (by simp)]
         simp
-      simp only [stripCont, hfind]
+      simp only [stripContOld, hfind]
       have e2 : (a ++ 10 :: (sp d ++ (l ++ contLines d ls))).take (a.length + 1) ++
           (a ++ 10 :: (sp d ++ (l ++ contLines d ls))).drop (a.length + 1 + (sp d).length) =
           (a ++ 10 :: l) ++ contLines d ls := by
@@ -306,21 +273,40 @@ theorem contLines_length_ge (d : Nat) (ls : List Bytes) : ls.length ≤ (contLin
   | nil => simp [contLines]
   | cons l ls ih => rw [contLines_cons]; simp only [List.length_append, List.length_cons]; omega
 
+/-- the one-pass loop of today on continuation lines: through `stripCont_onepass_eq` (an indent of
+at least one column) resp. `stripCont_nil` (no indent: then there is no continuation line) -/
+theorem stripCont_lines (d : Nat) (ls : List Bytes) (a : Bytes)
+    (ha : NM d a) (hls : ∀ x ∈ ls, noLF x ∧ (sp d).isPrefixOf x = false) :
+    stripCont (sp d) (a ++ contLines d ls) = a ++ sepText 10 ls := by
+  cases d with
+  | zero =>
+    have : ls = [] := by
+      cases ls with
+      | nil => rfl
+      | cons x _ => have := (hls x (by simp)).2; simp [sp] at this
+    subst this
+    have e : sp 0 = [] := rfl
+    rw [e, stripCont_nil]
+    simp [contLines, sepText]
+  | succ d =>
+    have hne : sp (d + 1) ≠ [] := by simp [sp, List.replicate_succ]
+    have hlen : ls.length ≤ (a ++ contLines (d + 1) ls).length := by
+      have := contLines_length_ge (d + 1) ls
+      simp only [List.length_append]; omega
+    rw [stripCont_onepass_eq _ hne _ _ (Nat.le_refl _)]
+    exact stripContOld_lines (d + 1) ls a _ ha hls hlen
+
 /-- **Continuation removal.**  On a value no line feed of which is followed by the whole indent,
-the in-place loop of `quotedQualifierParser` undoes `QualifierFormatter`'s `AddPrefix`. -/
+the loop of `quotedQualifierParser` undoes `QualifierFormatter`'s `AddPrefix`. -/
 theorem stripCont_addPrefix (d : Nat) (v : Bytes) (h : noCont d v = true) :
-    stripCont (sp d) (addPrefix (sp d) v).length (addPrefix (sp d) v) = v := by
+    stripCont (sp d) (addPrefix (sp d) v) = v := by
   obtain ⟨h0, hls⟩ := lines_noLF v
   have hls' : ∀ x ∈ tailLines v, noLF x ∧ (sp d).isPrefixOf x = false := by
     intro x hx
     refine ⟨hls x hx, ?_⟩
     simp only [noCont, List.all_eq_true, Bool.not_eq_true'] at h
     exact h x hx
-  have hlen : (tailLines v).length ≤ (addPrefix (sp d) v).length := by
-    rw [addPrefix_value]
-    have := contLines_length_ge d (tailLines v)
-    simp only [List.length_append]; omega
-  have := stripCont_lines d (tailLines v) (headLine v) _ (NM_line d _ h0) hls' hlen
+  have := stripCont_lines d (tailLines v) (headLine v) (NM_line d _ h0) hls'
   rw [← addPrefix_value] at this
   rw [this, ← lines_join v]
 
